@@ -134,6 +134,17 @@ Proof. exact C14_proofs.native_const_faithful_lemma. Qed.
 Theorem rune_count_is_code_points : forall s : str, utf8_valid s = true -> rune_count s = count_starts s.
 Proof. exact C14_proofs.rune_count_valid. Qed.
 
+(* utf8_valid (Go's utf8.ValidString, used for every name and value above) accepts exactly the concatenations of the
+   shortest encodings of Unicode scalar values (no surrogates, nothing above U+10FFFF, no overlong forms), and
+   rune_count counts those scalar values *)
+Theorem utf8_valid_iff_encoding : forall s : str,
+  utf8_valid s = true <-> exists cs, forallb is_scalar cs = true /\ s = utf8_encode cs.
+Proof. exact C14_proofs.utf8_valid_iff_encoding_lemma. Qed.
+
+Theorem rune_count_of_encoding : forall cs : list Z,
+  forallb is_scalar cs = true -> rune_count (utf8_encode cs) = Z.of_nat (length cs).
+Proof. exact C14_proofs.rune_count_encode_lemma. Qed.
+
 (* newExemplar accepts exactly: every name valid and not reserved, every value valid UTF-8, at most 128 runes over
    names and values together; the exemplar then carries the given value and labels *)
 Theorem exemplar_rune_limit : forall (v : f64) (l : list lpair),
